@@ -1,7 +1,10 @@
 # Dispositions of the MIR panic sites reachable from the verifier entry points (C18).
 # key = "<function>|<kind>:<what>|<normalised source snippet>|#<ordinal among identical>"  (no line numbers)
-#   ("guarded", V)    machine-checked on every run: the site is dominated by the pass edge of a branch
-#                     whose other edge returns Err(..::V).  Adequacy of the guard was established by reading.
+#   ("guarded", V[, rel]) machine-checked on every run: the site is dominated by the pass edge of a branch
+#                     whose other edge returns Err(..::V); with rel, that branch must moreover compare the
+#                     very operands the site can panic on: "end"/"start"/"idx" = the slice's end / start bound
+#                     or the index against the LENGTH OF THE INDEXED CONTAINER, "sub" = the two operands of the
+#                     subtraction against each other (arithmetic, casts and min/max are looked through).
 #   ("invariant", I)  safe under invariant I of a private-field type; who-may-construct is machine-checked.
 #   ("reviewed", why) frozen reason.  Editing the expression changes the key and forces re-triage.
 # A reachable site that is not listed is a VIOLATION.
@@ -49,15 +52,15 @@ SITES = {
     MP + "verify|call:index|[i - 1]|#1": ("reviewed", "under `if i > 0`, i < len"),
     # ---------------- multi_proof::verify_range ------------------------------------------------
     MP + "verify_range|assert:BoundsCheck|paths[0]|#1": ("reviewed", "inside `if paths.len() == 1`"),
-    MP + "verify_range|assert:Overflow:Sub|terminal_path.depth - start_depth|#1": ("guarded", "MalformedProof"),
-    MP + "verify_range|call:index|[start_depth..terminal_path.depth]|#1": ("guarded", "MalformedProof"),
-    MP + "verify_range|call:index|[..unique_len]|#1": ("guarded", "MalformedProof"),
+    MP + "verify_range|assert:Overflow:Sub|terminal_path.depth - start_depth|#1": ("guarded", "MalformedProof", "sub"),
+    MP + "verify_range|call:index|[start_depth..terminal_path.depth]|#1": ("guarded", "MalformedProof", "end"),
+    MP + "verify_range|call:index|[..unique_len]|#1": ("guarded", "MalformedProof", "end"),
     MP + "verify_range|assert:Overflow:Add|sibling_offset + unique_len|#1": ("reviewed", BOUNDED_SIB),
     MP + "verify_range|assert:BoundsCheck|paths[0]|#2": ("reviewed", "paths is non-empty here: the empty range returned above"),
     MP + "verify_range|assert:Overflow:Sub|paths.len() - 1|#1": ("reviewed", "paths is non-empty here"),
     MP + "verify_range|assert:BoundsCheck|paths[paths.len() - 1]|#1": ("reviewed", "paths is non-empty here"),
-    MP + "verify_range|call:index|[start_depth..]|#1": ("guarded", "MalformedProof"),
-    MP + "verify_range|call:index|[start_depth..]|#2": ("guarded", "MalformedProof"),
+    MP + "verify_range|call:index|[start_depth..]|#1": ("guarded", "MalformedProof", "start"),
+    MP + "verify_range|call:index|[start_depth..]|#2": ("guarded", "MalformedProof", "start"),
     MP + "verify_range|assert:Overflow:Add|start_depth + common_bits|#1": ("reviewed", "common_bits <= path length - start_depth <= 256"),
     MP + "verify_range|assert:Overflow:Add|common_len + 1|#1": ("reviewed", "common_len <= 256"),
     MP + "verify_range|call:unwrap_err|search_result.unwrap_err()|#1": ("reviewed", "the comparator never returns Ordering::Equal"),
@@ -67,13 +70,13 @@ SITES = {
     MP + "verify_range|assert:Overflow:Add|sibling_offset + common_bits + left_siblings_used|#1": ("reviewed", BOUNDED_SIB),
     MP + "verify_range|call:index|[..bisect_idx]|#1": ("reviewed", "the Err index of binary_search is <= len"),
     MP + "verify_range|call:index|[bisect_idx..]|#1": ("reviewed", "the Err index of binary_search is <= len"),
-    MP + "verify_range|call:index|[common_bits..]|#1": ("guarded", "MalformedProof"),
+    MP + "verify_range|call:index|[common_bits..]|#1": ("guarded", "MalformedProof", "start"),
     MP + "verify_range|assert:Overflow:Add|common_bits + left_siblings_used|#1": ("reviewed", BOUNDED_SIB),
     MP + "verify_range|assert:Overflow:Add|common_bits + left_siblings_used|#2": ("reviewed", BOUNDED_SIB),
     MP + "verify_range|assert:Overflow:Add|common_bits + left_siblings_used + right_siblings_used|#1": ("reviewed", BOUNDED_SIB),
     MP + "verify_range|call:index|[common_bits + left_siblings_used..]|#1": ("reviewed", "a call returns at most the length of the sibling slice it was given (single path: unique_len <= siblings.len() by the MalformedProof guard; bisection: common + left + right, each bounded by the slice it received), so common_bits + left_siblings_used <= siblings.len()"),
-    MP + "verify_range|call:index|[start_depth..common_len]|#1": ("guarded", "MalformedProof"),
-    MP + "verify_range|call:index|[..common_bits]|#1": ("guarded", "MalformedProof"),
+    MP + "verify_range|call:index|[start_depth..common_len]|#1": ("guarded", "MalformedProof", "start"),
+    MP + "verify_range|call:index|[..common_bits]|#1": ("guarded", "MalformedProof", "end"),
     MP + "verify_range::{closure}|assert:Overflow:Sub|uncommon_start_len - 1|#1": ("reviewed", "uncommon_start_len = common_len + 1 >= 1"),
     MP + "verify_range::{closure}|call:index|[uncommon_start_len - 1]|#1": ("guarded", "MalformedProof"),
     # ---------------- VerifiedMultiProof queries -----------------------------------------------
@@ -102,7 +105,7 @@ SITES = {
     MP + "CommonSiblings::extend|call:index|[self.taken_siblings..end]|#1": ("invariant", VMPC),
     MP + "CommonSiblings::extend|assert:Overflow:Add|start_depth + i|#1": ("reviewed", "depth + sibling count, both small"),
     MP + "hash_and_compact_terminal|assert:Overflow:Add|(n + 1)|#1": ("reviewed", "n <= 256"),
-    MP + "hash_and_compact_terminal|assert:Overflow:Sub|skip - (n + 1)|#1": ("guarded", "PathPrefixOfAnother"),
+    MP + "hash_and_compact_terminal|assert:Overflow:Sub|skip - (n + 1)|#1": ("guarded", "PathPrefixOfAnother", "sub"),
     MP + "hash_and_compact_terminal|assert:Overflow:Sub|skip - up_layers|#1": ("reviewed", "up_layers is skip or skip - (n + 1)"),
     MP + "hash_and_compact_terminal|call:index|[..terminal.depth]|#1": ("invariant", "vmp_depth"),
     MP + "hash_and_compact_terminal|call:unwrap|pending_siblings.pop().unwrap()|#1": ("reviewed", "`last()` was just observed to be Some"),
@@ -113,7 +116,7 @@ SITES = {
     MP + "verify_update|call:index|[terminal_index]|#1": ("reviewed", "terminal_index ranges over start..proof.inner.len()"),
     MP + "verify_update|call:index|[..]|#1": ("reviewed", "RangeFull never panics"),
     MP + "verify_update::{closure}|call:index|[n]|#1": ("reviewed", "n = terminal_index + 1 only when terminal_index != len - 1"),
-    MP + "verify_update|call:index|[next_terminal_index]|#1": ("guarded", "OpOutOfScope"),
+    MP + "verify_update|call:index|[next_terminal_index]|#1": ("guarded", "OpOutOfScope", "idx"),
     MP + "verify_update|assert:Overflow:Add|next_terminal_index += 1|#1": ("reviewed", "bounded by proof.inner.len() (checked right after)"),
     MP + "verify_update|call:unwrap|last_terminal_index.unwrap()|#1": ("reviewed", "the `map_or(true, ..)` branch above `continue`d when it was None"),
     MP + "verify_update|call:index|[terminal_index]|#2": ("reviewed", "terminal_index < updated_index, an index that passed the OpOutOfScope bound check"),
@@ -123,7 +126,7 @@ SITES = {
     MP + "verify_update|assert:Overflow:Add|updated_index + 1|#1": ("reviewed", "updated_index < len"),
     MP + "verify_update|assert:Overflow:Add|updated_index + 1|#2": ("reviewed", "updated_index < len"),
     # ---------------- path_proof ---------------------------------------------------------------
-    PP + "PathProof::verify|call:index|[..self.siblings.len()]|#1": ("guarded", "TooManySiblings"),
+    PP + "PathProof::verify|call:index|[..self.siblings.len()]|#1": ("guarded", "TooManySiblings", "end"),
     PP + "VerifiedPathProof::in_scope|call:index|[..self.key_path.len()]|#1": ("invariant", "vpp_keylen"),
     PP + "VerifiedPathProof::path|call:index|[..]|#1": ("reviewed", "RangeFull never panics"),
     PP + "verify_update|assert:Overflow:Sub|i - 1|#1": ("reviewed", "short-circuit `i != 0 &&`"),
